@@ -3,7 +3,8 @@
     holds in every reachable state, C11_Inv_reachable). *)
 From Coq Require Import QArith.
 From RN Require Import Base.Res Base.AMap Naming.Service Naming.ServiceProofs Naming.Filter Naming.Actor
-  Naming.IndexProofs Naming.ActorProofs Naming.FilterProofs Naming.OwnershipProofs Naming.Script Naming.Regression.
+  Naming.IndexProofs Naming.ActorProofs Naming.FilterProofs Naming.OwnershipProofs Naming.Script Naming.ScriptProofs
+  Naming.ConvProofs Naming.Regression.
 Local Open Scope N_scope.
 
 (** QueryList / QueryListString: the hosts returned are precisely the instances currently stored
@@ -87,6 +88,44 @@ Theorem C12_grpc_registration_recorded : forall c hashf a k i0 tg fs,
   (exists ks, cget (i_client i0) (a_clients a') = Some ks /\ In (k, i_key i0) ks) /\
   (exists n, stored a' k (i_key i0) = Some n /\ i_client n = i_client i0 /\ i_grpc n = true).
 Proof. exact grpc_registration_recorded. Qed.
+
+(** completeness at full strength.  [conv a dead]: every stored instance that carries a client id
+    is recorded for that client in client_instance_set, unless that connection has already been
+    removed ([dead]); it is preserved by every op and holds after every history, with [dead] = the
+    connections removed by the history *)
+Theorem C12_conv_step : forall c hashf a o d,
+  op_wf o -> Inv a -> conv a d -> conv (fst (step c hashf a o)) (removed_clients o ++ d).
+Proof. exact conv_step. Qed.
+
+Theorem C12_conv_reachable : forall c hashf ops t0,
+  Forall op_wf ops -> conv (run_all c hashf (actor_init t0) ops) (dead_of ops).
+Proof. exact conv_reachable. Qed.
+
+(** for a connection that has not been removed, the record IS the set of stored instances that
+    carry its id (both inclusions) *)
+Theorem C12_recorded_iff_owned : forall c hashf ops t0 cl k ik,
+  Forall op_wf ops -> cl <> 0 -> ~ In cl (dead_of ops) ->
+  let a := run_all c hashf (actor_init t0) ops in
+  (recorded (a_clients a) cl (k, ik) <-> exists i, stored a k ik = Some i /\ i_client i = cl).
+Proof. exact recorded_iff_owned. Qed.
+
+(** after ANY history of in-domain ops ([op_wfb]), RemoveClient of a connection that has not been
+    removed before ([alive_b]: a connection id is not reused after its RemoveClient) removes every
+    ephemeral instance that carries its id and leaves every other instance exactly as it was *)
+Theorem C12_disconnect_removes_ALL_own_ephemeral : forall c hashf ops t0 cl k ik i,
+  forallb op_wfb ops = true -> negb (cl =? 0) && alive_b cl ops = true ->
+  let a := run_all c hashf (actor_init t0) ops in
+  stored a k ik = Some i -> i_client i = cl -> i_ephemeral i = true ->
+  stored (fst (step c hashf a (OpRemoveClient cl))) k ik = None.
+Proof. exact disconnect_removes_all_own_ephemeral_b. Qed.
+
+Theorem C12_disconnect_exact : forall c hashf ops t0 cl k ik i,
+  forallb op_wfb ops = true -> negb (cl =? 0) && alive_b cl ops = true ->
+  let a := run_all c hashf (actor_init t0) ops in
+  stored a k ik = Some i ->
+  stored (fst (step c hashf a (OpRemoveClient cl))) k ik =
+  if i_ephemeral i && (i_client i =? cl) then None else Some i.
+Proof. exact disconnect_exact. Qed.
 
 (** the code before the repair violated the statement (regression model): a persistent instance
     registered over gRPC was removed by RemoveClient *)
